@@ -63,6 +63,7 @@ type sgConn struct {
 	wire   int64 // events of the signal (object 1) that have arrived on the connection, subscribed to or not
 	others []uint64 // registrations for another signal made on this connection (sg.other), oldest first
 	raws   []uint64 // registrations for the signal itself made by hand on this connection (sg.rawreg), oldest first
+	mute   *muteStream
 }
 
 type sgSub struct {
@@ -121,9 +122,24 @@ func (w *sgWorld) close() {
 	w.srv.Terminate()
 }
 
+// muteStream: the server's end of a connection whose writes can be made to fail while the connection stays open (a peer
+// that has shut down its reading half: the server gets an error for every write and does not see the connection end)
+type muteStream struct {
+	qnet.Stream
+	muted int32
+}
+
+func (m *muteStream) Write(p []byte) (int, error) {
+	if atomic.LoadInt32(&m.muted) == 1 {
+		return 0, fmt.Errorf("write: broken pipe")
+	}
+	return m.Stream.Write(p)
+}
+
 func (w *sgWorld) connect() (*sgConn, error) {
 	a, b := gonet.Pipe()
-	w.l.ch <- qnet.ConnStream(b)
+	ms := &muteStream{Stream: qnet.ConnStream(b)}
+	w.l.ch <- ms
 	h := &sgHold{Stream: qnet.ConnStream(a)}
 	h.cond = sync.NewCond(&h.mu)
 	ep := qnet.NewEndPoint(h)
@@ -138,7 +154,7 @@ func (w *sgWorld) connect() (*sgConn, error) {
 	cache := bus.NewCache(ep)
 	cache.AddService("PingPong", 1, meta)
 	c := &sgConn{hold: h, ep: ep, client: cl, proxy: bus.NewProxy(cl, meta, 1, 1), cache: cache, server: b,
-		mark: make(chan *qnet.Message, 16)}
+		mark: make(chan *qnet.Message, 16), mute: ms}
 	ep.MakeHandler(func(hd *qnet.Header) (bool, bool) { return hd.Action == 999999, true }, c.mark, nil)
 	tap := make(chan *qnet.Message, 4096)
 	ep.MakeHandler(func(hd *qnet.Header) (bool, bool) {
@@ -326,6 +342,10 @@ func execSg(op string) func(a []string) string {
 				return "error:" + err.Error()
 			}
 			w.conns[n(0)].others = append(w.conns[n(0)].others, sgOtherUID)
+			return "ok"
+		case "mute":
+			// from now on the server's writes to this connection fail; its registration stays in the table
+			atomic.StoreInt32(&w.conns[n(0)].mute.muted, 1)
 			return "ok"
 		case "rawreg":
 			// one more registration for the signal itself on this connection, under a user id of its own (a client that
@@ -855,7 +875,7 @@ func init() {
 		}
 		return r
 	}
-	for _, op := range []string{"rawreg", "rawunreg", "other", "unother", "wire", "subfail", "observe", "oterm", "holdunreg", "reset", "conn", "hold", "release", "sub", "cancel", "emit", "call", "got", "osub", "ocancel", "oemit", "ogot"} {
+	for _, op := range []string{"mute", "rawreg", "rawunreg", "other", "unother", "wire", "subfail", "observe", "oterm", "holdunreg", "reset", "conn", "hold", "release", "sub", "cancel", "emit", "call", "got", "osub", "ocancel", "oemit", "ogot"} {
 		executors["sg."+op] = execSg(op)
 	}
 	executors["sg.burstcancel"] = func(a []string) string {
@@ -1109,6 +1129,15 @@ func runC13(r *Rand, tier string, o *Out) {
 	}
 	emitN += 4
 	o.Count("scenario:several-registrations-on-one-connection")
+	// a subscriber the server can no longer write to, registered between two others: they go on receiving
+	for _, l := range []string{
+		"sg.reset", "sg.conn", "sg.conn", "sg.conn", "sg.sub 0", "sg.sub 1", "sg.sub 2", fmt.Sprintf("sg.emit %d", emitN+1), "sg.got 0", "sg.got 2",
+		"sg.mute 1", fmt.Sprintf("sg.emit %d", emitN+2), fmt.Sprintf("sg.emit %d", emitN+3), "sg.got 0", "sg.got 2", "sg.wire 0", "sg.wire 2",
+	} {
+		o.Do("P", l, true)
+	}
+	emitN += 3
+	o.Count("scenario:a-subscriber-that-cannot-be-written-to")
 	// an unregistration acknowledged while an emission is between its copy of the users and its writes
 	if out := o.Do("P", "sg.emitrace", true); sgLastRace == "late=1" {
 		o.Fail("an event is sent after the acknowledgement of the removal: the emission had copied the users before", "sg.emitrace => late=1")
